@@ -304,7 +304,7 @@ func deltaOK(p protocol.Protocol, d map[string]interface{}) string {
 }
 
 func checkC14(c *hx.Ctx) {
-	c.Rule("valid batch file sets produced by the REAL OperationHandler (all type mixes) are decoded and mutated: structural (entries dropped / duplicated / retargeted between roles, nulls, type confusion, counts skewed between every pair of files, references removed or added), byte-level on compressed and on decompressed-recompressed content, exact size attacks (stored-block gzip of exactly limit / limit+1 bytes; decompressed size exactly limit*factor / +1; compression bombs), CAS URI length at / past the limit, arbitrary anchor strings, primary CAS read failures with 0-3 alternate sources; oracle: GetTxnOperations never panics; on success the number of operations equals the anchor count, suffixes are pairwise distinct, every returned operation passes the library's own batch-mode parse / ValidateDelta / signed-data parse and an independent delta predicate; inputs built to break a stated limit or consistency rule must be rejected and the ones exactly at a limit accepted; crash-isolated workers under ulimit -v; non-trivial = mutated file set; distinct = distinct (files, anchor) inputs")
+	c.Rule("valid batch file sets produced by the REAL OperationHandler (all type mixes) are decoded and mutated: structural (entries dropped / duplicated / retargeted between roles, nulls, type confusion, counts skewed between every pair of files, references removed or added), byte-level on compressed and on decompressed-recompressed content, count skews by one on every batch shape (update-free batches included), multi-member gzip files (padding member past the decompressed limit, second document, trailing bytes), exact size attacks (stored-block gzip of exactly limit / limit+1 bytes; decompressed size exactly limit*factor / +1; compression bombs), CAS URI length at / past the limit, arbitrary anchor strings, primary CAS read failures with 0-3 alternate sources; oracle: GetTxnOperations never panics; on success the number of operations equals the anchor count, suffixes are pairwise distinct, every returned operation passes the library's own batch-mode parse / ValidateDelta / signed-data parse and an independent delta predicate; inputs built to break a stated limit or consistency rule must be rejected and the ones exactly at a limit accepted; crash-isolated workers under ulimit -v; non-trivial = mutated file set; distinct = distinct (files, anchor) inputs")
 	pool := hx.NewPool(c, "provider", 16, 6*1024*1024, 60*time.Second)
 	defer pool.Close()
 	p := c14Proto()
@@ -644,6 +644,65 @@ func checkC14(c *hx.Ctx) {
 			return
 		}
 	}
+	// ---------- count rules on every base shape (update-free batches included): chunk deltas / proof entries skewed by one
+	for bi, fs := range bases {
+		skews := []mut{}
+		if _, ok := fs.Trees["chunk"]; ok {
+			skews = append(skews, mut{"chunk-delta-count-plus", func(fs *fileSet) {
+				ch := obj(fs.Trees["chunk"])
+				ch["deltas"] = append(arr(ch, "deltas"), ref.CopyTree(arr(ch, "deltas")[0]))
+			}}, mut{"chunk-delta-count-plus-two", func(fs *fileSet) {
+				ch := obj(fs.Trees["chunk"])
+				ch["deltas"] = append(arr(ch, "deltas"), ref.CopyTree(arr(ch, "deltas")[0]), ref.CopyTree(arr(ch, "deltas")[0]))
+			}}, mut{"chunk-delta-count-minus", func(fs *fileSet) { ch := obj(fs.Trees["chunk"]); ch["deltas"] = arr(ch, "deltas")[1:] }})
+		}
+		for _, role := range []string{"core-proof", "prov-proof"} {
+			role := role
+			if _, ok := fs.Trees[role]; !ok {
+				continue
+			}
+			for _, kind := range []string{"recover", "deactivate", "update"} {
+				kind := kind
+				if len(arr(obj(fs.Trees[role], "operations"), kind)) == 0 {
+					continue
+				}
+				skews = append(skews, mut{role + "-" + kind + "-count-plus", func(fs *fileSet) {
+					o := obj(fs.Trees[role], "operations")
+					o[kind] = append(arr(o, kind), arr(o, kind)[0])
+				}}, mut{role + "-" + kind + "-count-minus", func(fs *fileSet) {
+					o := obj(fs.Trees[role], "operations")
+					o[kind] = arr(o, kind)[1:]
+				}})
+			}
+		}
+		for _, m := range skews {
+			n := fs.clone()
+			m.f(n)
+			if !must(n, nil, fmt.Sprintf("count-skew-per-shape:%s %v", m.name, shapes[bi]), false, nil) {
+				return
+			}
+		}
+	}
+	// ---------- multi-member gzip files: every conforming decoder inflates all members, so the decompressed-size rule and
+	// the JSON well-formedness rule apply to the concatenation
+	for bi, fs := range bases[:3] {
+		for role, tree := range fs.Trees {
+			first := gz(ref.MustJCS(tree), gzip.BestCompression)
+			dl := int(limitFor(p, role)) * int(p.MaxMemoryDecompressionFactor)
+			pad := gz(bytes.Repeat([]byte{' '}, dl+1-len(ref.MustJCS(tree))), gzip.BestCompression)
+			cat := func(a, b []byte) []byte { return append(append([]byte{}, a...), b...) }
+			if len(first)+len(pad) <= int(limitFor(p, role)) {
+				if !must(fs, map[string][]byte{role: cat(first, pad)}, fmt.Sprintf("multi-member-gzip-past-decompressed-limit:%s base%d", role, bi), false, nil) {
+					return
+				}
+			}
+			if !must(fs, map[string][]byte{role: cat(first, first)}, fmt.Sprintf("multi-member-gzip-two-documents:%s base%d", role, bi), false, nil) ||
+				!must(fs, map[string][]byte{role: cat(first, []byte("trailing garbage after the gzip member"))}, fmt.Sprintf("gzip-member-with-trailing-bytes:%s base%d", role, bi), false, nil) ||
+				!must(fs, map[string][]byte{role: cat(first, gz([]byte("x"), gzip.BestSpeed))}, fmt.Sprintf("multi-member-gzip-trailing-text:%s base%d", role, bi), false, nil) {
+				return
+			}
+		}
+	}
 	// ---------- arbitrary anchor strings
 	for _, a := range []string{"", ".", "1", "uri-core-index", "abc.uri-core-index", "0.uri-core-index", "-1.uri-core-index", "07.uri-core-index", "7", "1.2.3", "7.", ".uri-core-index",
 		"7 .uri-core-index", " 7.uri-core-index", "7e0.uri-core-index", "+7.uri-core-index", "7.uri-core-index.", "99999999999999999999999.uri-core-index", "7.no-such-file", "7.\x00", "٧.uri-core-index"} {
@@ -722,7 +781,7 @@ func checkC14(c *hx.Ctx) {
 	c.Set("worker_crashes", pool.Crashes)
 	for _, k := range []string{"must_true:valid-file-set", "must_true:file-size-at-limit", "must_false:file-size-past-limit", "must_true:decompressed-size-at-limit",
 		"must_false:decompressed-size-past-limit", "must_false:compression-bomb", "must_false:file-size-past-limit-from-alternate-source", "must_false:read-failure-no-alternate",
-		"must_false:inconsistent-file-set", "must_false:anchor-string", "outcome_ERR:structural", "outcome_OK:structural"} {
+		"must_false:inconsistent-file-set", "must_false:anchor-string", "must_false:count-skew-per-shape", "must_false:multi-member-gzip-past-decompressed-limit", "must_false:multi-member-gzip-two-documents", "outcome_ERR:structural", "outcome_OK:structural"} {
 		c.Floor(k, 5)
 	}
 	c.Floor("must_true:read-failure-served-by-alternate-1", 4)
